@@ -106,7 +106,7 @@ def main():
         engines.setdefault(c[0], []).append(i)
     m = {
         "version": 1,
-        "setup_cmd": "cd /verif/mc && CARGO_NET_OFFLINE=true cargo build --release --offline",
+        "setup_cmd": "cd /verif/mc && CARGO_NET_OFFLINE=true cargo build --release --offline --target-dir /verif/mc/target",
         "hooks": {
             "guard": "cargo feature verif-hooks (off by default)",
             "enable": "the harness crate /verif/mc depends on /repo by path with features = [\"verif-hooks\"]; no RUSTFLAGS needed",
